@@ -326,9 +326,10 @@ def make_cases(rng, tier, replay=None):
             ('2/s + 1/(s + 1)', ['SAd', ['SSc', '2', stp], ['SB', 'expu', {'c1': '-1', 'c0': '0/1'}]]),
             ('s/(s**2 + 1) + 1/(s + 3)', ['SAd', cosu('1'), ['SB', 'expu', {'c1': '-3', 'c0': '0/1'}]])]
     if tier == 'quick':
-        marg = marg[:5] + [marg[5 + core.seed() % 3]]
-    for src, sig in marg:
-        ops = [{'op': 'sshort', 'var': v} for v in vars_] + [{'op': 'viatime', 'var': 'omega'}]
+        marg = [marg[0], marg[2], marg[4], marg[(1, 3, 5, 6, 7)[core.seed() % 5]]]
+    for mi, (src, sig) in enumerate(marg):
+        vs_ = vars_ if tier != 'quick' else ['omega', 'f', ('F', 'Omega')[(mi + core.seed()) % 2]]
+        ops = [{'op': 'sshort', 'var': v} for v in vs_] + [{'op': 'viatime', 'var': 'omega'}]
         add({'kind': 'sshort', 'dom': 's', 'sig': sig, 'expr': src, 'tag': 'marginal', 'extra_feats': ['marginal'], 'ops': ops, 'oracle': False})
     # histories: the same key with different constant factors, interleaved (cache keyed without the constant)
     for i in range(n_hist):
@@ -831,7 +832,7 @@ def run(tier='quick', replay=None):
                 # a known defect of a table entry / scale factor is the translated expression itself: the finding is keyed by
                 # the hash of that expression, and only covers results that the model WITH the translated (wrong) expression
                 # reproduces exactly; anything else on the same entry is a different violation
-                explained = st['state'] != 'compared' or kind in ('rt', 'conv') or not any(x == 'bad' for x in (st.get('code') or []))
+                explained = st['state'] != 'compared' or kind in ('rt', 'conv', 'sshort', 'viatime') or not any(x == 'bad' for x in (st.get('code') or []))
                 if explained:
                     key = '%s:%s@%s' % (kind, bf, '+'.join(sorted(irhash.get(n, '?') for n in thms)))
                 else:
